@@ -73,7 +73,7 @@ CHECKS["C05"] = {
 CHECKS["C06"] = {
     "script": "c06.py", "category": "model_checking",
     "technique": "exhaustive enumeration of pattern pairs x hostnames (matcher law) + exhaustive exploration of the real broker rejection path and of the real proxy runSession/datachannelHandler over a relay-URL grammar under the controlled scheduler",
-    "text": "(i) all 15.3 M ordered pairs of patterns <=5 over {^,$,a,b,.} x 364 hostnames: IsSupersetOf implies member inclusion; (ii) broker: allowed (10) x proxy pattern (10) x present/absent x presumed (4/10): 'incorrect relay pattern' iff not a superset by an independent reference, never registered, next client refused; (iii) proxy: relay URLs from a grammar (schemes, userinfo, lookalike hosts, IPv6, trailing dot, case, ports, fragments) x 3 patterns x AllowNonTLSRelay: every dialled host satisfies the proxy's matcher, wss unless allowed, slot released.",
+    "text": "(i) all 15.3 M ordered pairs of patterns <=5 over {^,$,a,b,.} x 364 hostnames: IsSupersetOf implies member inclusion; (ii) broker: allowed (10) x proxy pattern (14, incl. letter-case variants) x present/absent x presumed (4/10): 'incorrect relay pattern' iff not a superset by an independent reference, never registered, next client refused; (iii) proxy: relay URLs from a grammar (schemes, userinfo, lookalike hosts, IPv6, trailing dot, case, ports, fragments) x 3 patterns x AllowNonTLSRelay: every dialled host satisfies the proxy's matcher, wss unless allowed, slot released.",
     "design_ref": "§3 C06", "note": SCHED_NOTE + " (iii) uses the C16 seams; the dial is observed at websocket.DefaultDialer.NetDial.",
 }
 CHECKS["C16"] = {
